@@ -51,6 +51,10 @@ def main(argv):
         print(f"HARNESS ERROR: {e}")
         traceback.print_exc()
         return 2
+    except Exception as e:  # noqa: BLE001 - a crash of the machinery must never look like a verdict
+        print(f"HARNESS ERROR: uncaught {type(e).__name__}: {e}")
+        traceback.print_exc()
+        return 2
 
 
 if __name__ == "__main__":
